@@ -17,6 +17,9 @@
 #include <sys/resource.h>
 #include <sys/time.h>
 #include <sys/stat.h>
+#include <thread>
+#include <chrono>
+#include <random>
 
 using namespace ezc3d;
 typedef ParametersNS::GroupNS::Parameter Param;
@@ -29,7 +32,7 @@ typedef DataNS::AnalogsNS::SubFrame SubFrame;
 typedef DataNS::AnalogsNS::Channel Channel;
 
 static std::string g_own, g_shared;
-static FILE* g_out = stdout;
+static thread_local FILE* g_out = stdout;   // per thread in --threads mode
 
 // ---------- token helpers ----------
 struct Toks {
@@ -312,11 +315,42 @@ static void runCase(const std::vector<std::string>& lines) {
 int main(int argc, char** argv) {
     if (argc < 4) { fprintf(stderr, "usage: driver cases own-dir shared-dir [--timeout s] [--aslimit MB] [--nofork]\n"); return 2; }
     g_own = argv[2]; g_shared = argv[3];
-    int tmo = 20; long aslimit = 0; bool nofork = false;
+    int tmo = 20; long aslimit = 0; bool nofork = false; int nthreads = 0; unsigned jitter = 0;
     for (int i = 4; i < argc; ++i) {
         if (!strcmp(argv[i], "--timeout") && i + 1 < argc) tmo = atoi(argv[++i]);
         else if (!strcmp(argv[i], "--aslimit") && i + 1 < argc) aslimit = atol(argv[++i]);
         else if (!strcmp(argv[i], "--nofork")) nofork = true;
+        else if (!strcmp(argv[i], "--threads") && i + 1 < argc) nthreads = atoi(argv[++i]);
+        else if (!strcmp(argv[i], "--jitter") && i + 1 < argc) jitter = (unsigned)atoi(argv[++i]);
+    }
+    if (nthreads > 0) {
+        // C18: every case runs in its own thread, nthreads at a time, each with its own objects and output buffer
+        std::ifstream in2(argv[1]); std::string ln, cid; std::vector<std::string> cur; bool inc = false;
+        std::vector<std::pair<std::string, std::vector<std::string>>> all;
+        while (std::getline(in2, ln)) {
+            if (ln.compare(0, 5, "case ") == 0) { cid = ln.substr(5); cur.clear(); inc = true; }
+            else if (ln == "end" && inc) { all.push_back({cid, cur}); inc = false; }
+            else if (inc) cur.push_back(ln);
+        }
+        for (size_t base = 0; base < all.size(); base += nthreads) {
+            size_t n = std::min((size_t)nthreads, all.size() - base);
+            std::vector<char*> bufs(n, nullptr); std::vector<size_t> lens(n, 0); std::vector<std::thread> ths;
+            for (size_t t = 0; t < n; ++t)
+                ths.emplace_back([&, t]() {
+                    FILE* f = open_memstream(&bufs[t], &lens[t]); g_out = f;
+                    if (jitter) { std::mt19937 g(jitter * 7919u + (unsigned)(base + t)); std::this_thread::sleep_for(std::chrono::microseconds(g() % 2000)); }
+                    runCase(all[base + t].second);
+                    fflush(f); fclose(f);
+                });
+            for (auto& th : ths) th.join();
+            for (size_t t = 0; t < n; ++t) {
+                printf("case %s\n", all[base + t].first.c_str());
+                if (bufs[t]) { fwrite(bufs[t], 1, lens[t], stdout); free(bufs[t]); }
+                printf("end %s exit:0\n", all[base + t].first.c_str());
+            }
+            fflush(stdout);
+        }
+        return 0;
     }
     std::ifstream in(argv[1]);
     std::string line, id; std::vector<std::string> lines; bool incase = false;
